@@ -21,6 +21,16 @@ CLAIMED = {
    note="Trusted: sim/models/netqasm_ref.py (reference semantics), SimExecutor hook overrides, the scheduler. Domain: defined registers, non-negative indices, 32-bit results, arrays <= 64 entries; <=200 executed instructions per subroutine.",
    technique="deterministic simulation: seeded instruction-level interleaving + lock-step reference model",
    ref="§5 C04"),
+ "C12": dict(
+   text="Seeded exploration of schedules: raw NetQASM subroutines with up to three outstanding entanglement requests (create/receive, keep/measure, 1-2 sockets, 1-2 remote nodes, 1-2 applications) run on the real controller while the seeded scheduler orders instruction steps, link-layer deliveries (early ones included) and retry timers; a reference matcher over the recorded issue/delivery history decides slice placement, qubit mapping, exactly-once consumption and queue retirement; step monitors decide wait instructions and non-overwriting of allocated qubits; bounded liveness after the last delivery.",
+   note="Trusted: fake link layer (per-key FIFO, cross-key races), retry timer replacing the base class's unbounded recursion, the reference matcher. Requests sharing a key share a type; no message loss between link and controller.",
+   technique="deterministic simulation: seeded interleaving of instruction steps, link deliveries and retry timers + history matcher",
+   ref="§5 C12"),
+ "C13": dict(
+   text="Seeded exploration of histories: register / subroutine / keep-delivery / stop / re-register events over 1-3 application ids on one real controller, interleaved per instruction; after every event the global allocation invariants (injective virtual->physical map, used-set == mapped set), isolation of the non-acting applications (bit-identical snapshots), and the lifecycle rules (stop releases everything, re-registration of the id succeeds from an empty state) are checked.",
+   note="Trusted: trace quantum memory, fake link with ghost creators, scheduler, invariant code. Applications are stopped only between their own subroutines; entanglement blocks are well-formed, random tails may fault.",
+   technique="deterministic simulation: seeded interleaving of application lifecycles with faulting programs + invariants after every event",
+   ref="§5 C13"),
 }
 
 PENDING = {p: 'check not built yet in this round (simulation target per DESIGN §5; will be claimed when its rig exists)' for p in ['C05','C06','C08','C09','C10','C11','C12','C13','C14','C18','C20']}
